@@ -12,8 +12,8 @@ import time
 
 VERIF = os.path.dirname(os.path.dirname(os.path.abspath(__file__)))
 REPO = os.environ.get("VERIF_REPO", "/repo")
-BUILD = os.path.join(VERIF, "build")
-EVID = os.path.join(VERIF, "evidence")
+BUILD = os.environ.get("VERIF_BUILD", os.path.join(VERIF, "build"))
+EVID = os.environ.get("VERIF_EVID", os.path.join(VERIF, "evidence"))
 REPLAYS = os.path.join(EVID, "replays")
 NCPU = os.cpu_count() or 8
 CXX = "g++"
@@ -93,7 +93,7 @@ def inc_flags(cfg, node_sizes_dir=None):
     if node_sizes_dir:
         fl += ["-I", node_sizes_dir]
     fl += ["-I", cfg_dir(cfg), "-I", os.path.join(REPO, "include"),
-           "-I", os.path.join(REPO, "include/foonathan/memory")]
+           "-I", os.path.join(REPO, "include/foonathan/memory"), "-I", os.path.join(REPO, "src")]
     return fl
 
 
